@@ -3,6 +3,7 @@
 Everything is driven by a random.Random handed in by the caller (derived from common.rng).
 """
 import ast
+import collections
 import glob
 import io
 import keyword
@@ -276,7 +277,9 @@ class Gen:
     r = self.r
     e = lambda: self.expr(1, ctx)
     deep = d >= 3
-    k = r.randrange(44)
+    k = r.randrange(47)
+    if k >= 44:
+      k = 36          # multi-line statements (where comments and directives have the most structure) get extra weight
     if deep and k >= 12 and k < 36:
       k = r.randrange(12)
     if k == 0:
@@ -417,9 +420,36 @@ class Gen:
     elif k == 35:
       self.f("multi-stmt-line"); self.emit(ind, f"{self.name()} = {e()}; {self.name()} = {e()}")
     elif k == 36:
-      self.f("multiline-expr")
-      self.emit(ind, f"{self.name()} = ({e()} +")
-      self.emit(ind + 2, f"{e()})")
+      q = r.randrange(5)
+      if q == 0:
+        self.f("multiline-expr")
+        self.emit(ind, f"{self.name()} = ({e()} +")
+        self.emit(ind + 2, f"{e()})")
+      elif q == 1:
+        self.f("multiline-list")
+        self.emit(ind, f"{self.name()} = [")
+        for _ in range(r.randint(1, 3)):
+          self.emit(ind + 1, f"{e()},")
+        self.emit(ind, "]")
+      elif q == 2:
+        self.f("multiline-dict")
+        self.emit(ind, f"{self.name()} = {{")
+        for _ in range(r.randint(1, 3)):
+          self.emit(ind + 1, f"{self.atom()}: {e()},")
+        self.emit(ind, "}")
+      elif q == 3:
+        self.f("multiline-call")
+        self.emit(ind, f"{r.choice(self.funcs + BUILTIN_FUNCS)}(")
+        for _ in range(r.randint(1, 3)):
+          self.emit(ind + 2, f"{e()},")
+        self.emit(ind, ")")
+      else:
+        self.f("multiline-with")
+        self.emit(ind, "with (")
+        self.emit(ind + 2, f"{e()} as {self.name()},")
+        self.emit(ind + 2, f"{e()} as {self.name()},")
+        self.emit(ind, "):")
+        self.block(ind + 1, d + 1, ctx, 1)
     elif k == 37:
       self.f("docstring-or-str"); self.emit(ind, r.choice(['"""doc"""', "'s'", "b'x'", "1", "..."]))
     elif k == 38:
@@ -496,7 +526,14 @@ class Gen:
     ret = f" -> {self.annotation()}" if r.random() < .35 else ""
     for dd in decs:
       self.emit(ind, dd)
-    self.emit(ind, f"{'async ' if isasync else ''}def {name}{tparams}({params}){ret}:")
+    if params and r.random() < .2:
+      self.f("multiline-signature")
+      self.emit(ind, f"{'async ' if isasync else ''}def {name}{tparams}(")
+      for prm in params.split(", "):
+        self.emit(ind + 2, prm + ",")
+      self.emit(ind, f"){ret}:")
+    else:
+      self.emit(ind, f"{'async ' if isasync else ''}def {name}{tparams}({params}){ret}:")
     self.f("async-def" if isasync else "def")
     if ctx.get("func"):
       self.f("nested-def")
@@ -572,6 +609,9 @@ def gen_program(r, size=None):
     tail, _ = tail_program(r, prefix=False, ending="")
     g.f("tail-construct")
     src += tail + "\n"
+  if r.random() < .4:
+    g.f("directive-comments")
+    src = decorate(r, src)
   q = r.random()
   if q < .04:
     g.f("no-trailing-newline"); src = src.rstrip("\n")
@@ -690,6 +730,173 @@ def tail_program(r, name=None, ending=None, prefix=True):
       src = head + src
   ending = r.choice(TAIL_ENDINGS) if ending is None else ending
   return src + ending, f"{name}|{ending!r}"
+
+
+# ---------------------------------------------------------------------------------------
+# DIRECTIVE layer: comments only, so CPython's view of the program does not change and the oracle stays the same.
+
+ERR_CLASSES = ["attribute-error", "name-error", "wrong-arg-types", "unsupported-operands", "bad-return-type",
+               "not-callable", "annotation-type-mismatch", "wrong-arg-count", "invalid-annotation", "missing-parameter",
+               "bad-unpacking", "unbound-type-param", "*"]
+TRAILING_COMMENTS = [
+    "# type: ignore", "# type: ignore[attr-defined]", "#type:ignore", "# type: ignore  # pytype: disable=attribute-error",
+    "# pytype: disable=ERR", "# pytype: disable=ERR,ERR2", "# pytype: enable=ERR", "# pytype: disable=ERR  # ünïcödé コメント",
+    "# type: int", "# type: List[int]", "# type: str", "# type: (int) -> str", "# type: (...) -> None", "# type: Dict[str,",
+    "# pytype: disable=no-such-error", "# pytype: foo=bar", "# pytype:", "# pytype: disable=", "# type:", "# pytype: disable",
+    "# ümlaut コメント", "# noqa  # type: ignore", "# pytype: disable=ERR # type: ignore", "# pytype: cache-return",
+    "# pytype: features=no-return-any", "# TODO(x): type: ignore", "# pytype: disable=ERR, enable=ERR2", "# pytype: enable=*",
+]
+
+
+def _cm(r, c):
+  return c.replace("ERR2", r.choice(ERR_CLASSES[:-1])).replace("ERR", r.choice(ERR_CLASSES))
+
+
+def decorate(r, src, force_inner=False):
+  """Adds directive / type comments (trailing, own-line, ranges) to a compiling text; returns it unchanged if it
+  does not tokenize.  Only comments are added.  force_inner: guarantee a structured comment on a continuation line
+  inside brackets (if the text has one) and two disable/enable regions for one error class after it."""
+  if "\r" in src:
+    return src
+  try:
+    toks = list(tokenize.generate_tokens(io.StringIO(src).readline))
+  except (tokenize.TokenError, IndentationError, SyntaxError):
+    return src
+  lines = src.split("\n")
+  depth = 0
+  ends = []            # (row, inside_brackets, already_has_comment): physical lines ending outside any string
+  prev = None
+  for t in toks:
+    if t.type == tokenize.OP and t.string in "([{":
+      depth += 1
+    elif t.type == tokenize.OP and t.string in ")]}":
+      depth -= 1
+    elif t.type in (tokenize.NEWLINE, tokenize.NL) and t.string:
+      has_c = prev is not None and prev.type == tokenize.COMMENT and prev.start[0] == t.start[0]
+      blank = prev is None or prev.end[0] != t.start[0]
+      ends.append((t.start[0], depth > 0, has_c, blank))
+    prev = t
+  if not ends:
+    return src
+  trailing = {}        # row -> comment
+  own = collections.defaultdict(list)   # row -> comments inserted AFTER that row (0 = before the first line)
+  inner = [e for e in ends if e[1] and not e[2] and not e[3]]
+  outer = [e for e in ends if not e[1] and not e[2] and not e[3]]
+  # trailing comments, biased towards continuation lines inside brackets
+  for e in inner:
+    if r.random() < (.5 if not force_inner else .3):
+      trailing[e[0]] = _cm(r, r.choice(TRAILING_COMMENTS))
+  if force_inner and inner and not any(e[0] in trailing for e in inner):
+    trailing[r.choice(inner)[0]] = _cm(r, r.choice(["# type: ignore", "# pytype: disable=ERR", "# type: int"]))
+  for e in outer:
+    if r.random() < .15:
+      trailing[e[0]] = _cm(r, r.choice(TRAILING_COMMENTS))
+  if r.random() < .3:
+    trailing.setdefault(ends[-1][0], _cm(r, r.choice(TRAILING_COMMENTS)))      # the last line of the file
+  # own-line comments anywhere a physical line ends
+  for e in ends:
+    if r.random() < .08:
+      own[e[0]].append(_cm(r, r.choice(TRAILING_COMMENTS)))
+  # range directives: regions for the same class (sequential), different classes, nested
+  rows = sorted({e[0] for e in ends if not e[1]} | {0})
+  first_inner = min([row for row in trailing if any(e[0] == row and e[1] for e in ends)], default=0)
+  nreg = r.choice([0, 1, 2, 2, 3]) if not force_inner else r.choice([2, 3])
+  if len(rows) >= 2 and nreg:
+    cls = r.choice(ERR_CLASSES)
+    cand = [x for x in rows if x >= first_inner] if force_inner else rows
+    if len(cand) < 2 * nreg:
+      cand = rows
+    pts = sorted(r.choice(cand) for _ in range(2 * nreg))
+    for i in range(0, len(pts), 2):
+      c = cls if r.random() < .7 else r.choice(ERR_CLASSES)
+      own[pts[i]].append(f"# pytype: disable={c}")
+      if r.random() < .85 or force_inner:
+        own[pts[i + 1]].append(f"# pytype: enable={c}")
+    if r.random() < .3:      # a nested pair around everything chosen so far
+      c2 = r.choice(ERR_CLASSES)
+      own[pts[0]].insert(0, f"# pytype: disable={c2}")
+      own[pts[-1]].append(f"# pytype: enable={c2}")
+  out = []
+  def indent_of(row):      # indentation of physical line `row` (1-based), for looks only
+    if 1 <= row <= len(lines):
+      ln = lines[row - 1]
+      return ln[:len(ln) - len(ln.lstrip(" \t"))]
+    return ""
+  for c in own.get(0, []):
+    out.append(c)
+  for i, ln in enumerate(lines, 1):
+    if i in trailing and ln.strip() and not ln.rstrip().endswith("\\"):
+      ln = ln + "  " + trailing[i]
+    out.append(ln)
+    for c in own.get(i, []):
+      out.append(r.choice([indent_of(i + 1), indent_of(i), ""]) + c)
+  return "\n".join(out)
+
+
+def directive_templates():
+  """{name: source}: a structured comment INSIDE a multi-line statement, followed by several own-line range
+  directives (COMMENT is replaced by a `# type:` / `# pytype:` comment, ERR by an error class)."""
+  regions = ("class A:\n  pass\n{head}# pytype: disable=ERR\ny = A().foo\n# pytype: enable=ERR\nz = 1\n"
+             "# pytype: disable=ERR\nw = A().bar\n# pytype: enable=ERR\nv = 1\n")
+  heads = {
+      "list-display": "x = [  COMMENT\n    1]\n",
+      "list-display-inner": "x = [\n    1,  COMMENT\n    2,\n]\n",
+      "dict-display": "x = {  COMMENT\n    'a': 1,\n    'b': 2}\n",
+      "tuple-display": "x = (\n    1,\n    2,  COMMENT\n)\n",
+      "set-display": "x = {1,  COMMENT\n     2}\n",
+      "call-args": "x = dict(  COMMENT\n    a=1)\n",
+      "call-args-inner": "print(\n    1,  COMMENT\n    2)\n",
+      "def-signature": "def f(\n    x,  COMMENT\n    y,\n):\n  return x\n",
+      "def-signature-type-comments": "def f(\n    x,  # type: int\n    y,  # type: str\n):\n  # type: (...) -> int\n  return x\n",
+      "def-signature-last-line": "def f(x,\n      y):  COMMENT\n  return x\n",
+      "async-def-signature": "async def f(\n    x,  COMMENT\n    *a, **k):\n  return x\n",
+      "class-bases": "class B(\n    A,  COMMENT\n):\n  pass\n",
+      "with-items": "with (\n    open('f') as a,  COMMENT\n    open('g') as b,\n):\n  pass\n",
+      "nested-display": "x = [\n    [1,  COMMENT\n     2],\n    {'a': (3,  COMMENT\n           4)},\n]\n",
+      "comprehension": "x = [i  COMMENT\n     for i in (1, 2)  COMMENT\n     if i]\n",
+      "binary-continuation": "x = (1 +  COMMENT\n     2)\n",
+      "decorator-call": "def d(*a):\n  return lambda f: f\n@d(1,  COMMENT\n   2)\ndef g():\n  pass\n",
+      "two-displays": "x = [  COMMENT\n    1]\ny2 = [\n    2]  COMMENT\n",
+      "lambda-default": "f = lambda a=(1,  COMMENT\n              2): a\n",
+      "subscript": "x = {}[\n    1  COMMENT\n]\n",
+      "string-continuation": "x = ('a'  COMMENT\n     'b')\n",
+      "return-display": "def f():\n  return [  COMMENT\n      1]\n",
+      "own-line-inside-display": "x = [\n    # pytype: disable=ERR\n    1,\n    # pytype: enable=ERR\n    2]\n",
+      "assert-multi-line": "assert (1,  COMMENT\n        2)\n",
+      "match-multi-line": "match [1,  COMMENT\n       2]:\n  case [a, b]:  COMMENT\n    pass\n",
+  }
+  out = {}
+  for k, h in heads.items():
+    out[k] = regions.format(head=h)
+  # regions inside a function / class body, nested and overlapping regions, directives at the very end
+  out["regions-in-function"] = ("class A:\n  pass\ndef f(\n    x,  COMMENT\n    y,\n):\n  z = 1\n  # pytype: disable=ERR\n  y = A().foo\n"
+                                "  # pytype: enable=ERR\n  z = 1\n  # pytype: disable=ERR\n  w = A().bar\n  # pytype: enable=ERR\n  return w\n")
+  out["nested-regions"] = ("x = [  COMMENT\n    1]\n# pytype: disable=attribute-error\n# pytype: disable=name-error\ny = q\n"
+                           "# pytype: enable=name-error\n# pytype: disable=name-error\nz = q\n# pytype: enable=name-error\n# pytype: enable=attribute-error\n")
+  out["unclosed-region-at-eof"] = "x = [  COMMENT\n    1]\n# pytype: disable=ERR\ny = 1\n# pytype: enable=ERR\n# pytype: disable=ERR\nz = q"
+  out["enable-without-disable"] = "x = [  COMMENT\n    1]\n# pytype: enable=ERR\ny = 1\n# pytype: enable=ERR\n# pytype: disable=ERR\n"
+  out["star-regions"] = "x = {  COMMENT\n  1: 2}\n# pytype: disable=*\ny = q\n# pytype: enable=*\nz = 1\n# pytype: disable=*\nw = q\n# pytype: enable=*\n"
+  out["type-ignore-own-line-regions"] = "x = [  COMMENT\n    1]\n# type: ignore\ny = q\n"
+  out["trailing-and-own-line-mix"] = ("def f(a,  COMMENT\n      b):  # pytype: disable=ERR\n  # pytype: disable=ERR\n  return q  # pytype: enable=ERR\n"
+                                      "  # pytype: enable=ERR\n# pytype: disable=ERR\nf(1)  # type: ignore\n# pytype: enable=ERR\n")
+  return out
+
+
+INNER_COMMENTS = ["# type: ignore", "# pytype: disable=ERR", "# type: int", "# pytype: disable=wrong-arg-types", "# type: ignore  # pytype: disable=ERR",
+                  "# pytype: enable=ERR", "# pytype: disable=no-such-error", "# ünïcödé", "# type: List[int]"]
+
+
+def directive_program(r, name=None, comment=None, err=None):
+  t = directive_templates()
+  name = name or r.choice(sorted(t))
+  err = err or r.choice(ERR_CLASSES)
+  src = t[name]
+  while "COMMENT" in src:
+    src = src.replace("COMMENT", comment or r.choice(INNER_COMMENTS), 1)
+  src = src.replace("ERR", err)
+  if r.random() < .25:
+    src = src.rstrip("\n")
+  return src, f"{name}|{comment}|{err}"
 
 
 # ---------------------------------------------------------------------------------------
